@@ -33,7 +33,10 @@ Body(p, b) == IF b = 0 THEN <<>> ELSE p.bodies[b]
 Titles(p) == {p.nodes[i].title : i \in DOMAIN p.nodes}
 NodeIdx(p, t) == CHOOSE i \in DOMAIN p.nodes :
                    p.nodes[i].title = t /\ \A j \in 1..(i - 1) : p.nodes[j].title # t
-Probes(p) == {f \in DOMAIN p.funcs : p.funcs[f] \in {"id", "boom", "noret", "bump"}}
+ProbesOf(funcs) == {f \in DOMAIN funcs : funcs[f] \in {"id", "boom", "noret", "bump"}}
+Probes(p) == ProbesOf(p.funcs)
+\* registering name under kind (replaces an earlier registration of that name)
+Ext(f, name, kind) == [n \in DOMAIN f \cup {name} |-> IF n = name THEN kind ELSE f[n]]
 
 NoCmd == [st |-> "none", err |-> FALSE, arg |-> Unset]
 NoOut == [k |-> "none"]
@@ -53,6 +56,10 @@ InitRunner(p) ==
    node   |-> p.nodes[1].title,
    entry  |-> InitStore(p),         \* variables as of the last node entry
    ended  |-> FALSE,
+   \* the host's registrations (AddFunction / AddCommand may be called again at any time between
+   \* calls; they belong to the runner, not to its position: RestoreAt leaves them alone)
+   funcs  |-> p.funcs,
+   cmds   |-> p.cmds,
    \* how a line condition on a PLAIN line is read ("show": ignored, the line is presented; "skip": a
    \* false condition skips the line).  The properties leave it open; the trace specification tries both.
    lcmode |-> "show",
@@ -67,7 +74,7 @@ InitRunner(p) ==
    ccalls |-> <<>>]                 \* command-handler invocations of this call
 
 Env(p, s) == [store |-> s.store, visits |-> s.visits, nodes |-> Titles(p),
-              funcs |-> p.funcs, probes |-> Probes(p)]
+              funcs |-> s.funcs, probes |-> ProbesOf(s.funcs)]
 
 Yield(s, out) == [s EXCEPT !.mode = "idle", !.out = out]
 \* the calls of a (partial) evaluation are logged, and what host functions wrote through the storer
@@ -207,8 +214,8 @@ ExecCmd(p, s, stmt) ==
        IN IF name = "stop"                                 \* never dispatched (C17)
           THEN Yield([s1 EXCEPT !.ended = TRUE,
                                 !.stack = IF Bug.stopKeepsStack THEN @ ELSE <<>>], EndOut)
-          ELSE IF name \notin DOMAIN p.cmds THEN Fault(s1, <<>>)
-          ELSE LET kind == p.cmds[name]
+          ELSE IF name \notin DOMAIN s.cmds THEN Fault(s1, <<>>)
+          ELSE LET kind == s.cmds[name]
                    s2 == [s1 EXCEPT !.ccalls = Append(@, [name |-> name, args |-> args])]
                IN CASE kind = "done" -> s2
                     [] kind = "fail" -> Fault(s2, <<>>)
@@ -297,6 +304,10 @@ InDone(choice, err) == [choice |-> choice, done |-> TRUE, err |-> err]
 
 \* ------------------------------------------------------- host / environment
 HostSet(s, var, val) == [s EXCEPT !.store[var] = val]
+
+\* AddFunction / AddCommand between two calls
+Rebind(s, what, name, kind) == IF what = "f" THEN [s EXCEPT !.funcs = Ext(@, name, kind)]
+                               ELSE [s EXCEPT !.cmds = Ext(@, name, kind)]
 
 Snapshot(s) == [vars |-> s.entry, node |-> s.node, visits |-> s.visits]
 
